@@ -516,6 +516,10 @@ func (its *jsonPrimitive) InsertLocalInArray(
 	errors.OrdaError, // error
 ) {
 	if parentArray, ok := its.findJSONArray(parent); ok {
+		// checked again under the datatype mutex (the caller validated before taking it)
+		if err := parentArray.validateInsertPosition(pos); err != nil {
+			return nil, nil, err
+		}
 		target, _, err := parentArray.insertCommon(pos, nil, ts, values...)
 		return target, parentArray, err
 	}
@@ -542,6 +546,9 @@ func (its *jsonPrimitive) UpdateLocalInArray(
 	values ...interface{},
 ) ([]*model.Timestamp, []jsonType, errors.OrdaError) {
 	if parentArray, ok := its.findJSONArray(parent); ok {
+		if err := parentArray.validateGetRange(pos, len(values)); err != nil {
+			return nil, nil, err
+		}
 		return parentArray.updateLocal(pos, ts, values...)
 	}
 	return nil, nil, errors.DatatypeInvalidParent.New(its.getLogger(), parent.ToString())
@@ -565,6 +572,9 @@ func (its *jsonPrimitive) DeleteLocalInArray(
 	ts *model.Timestamp,
 ) ([]*model.Timestamp, []jsonType, errors.OrdaError) {
 	if parentArray, ok := its.findJSONArray(parent); ok {
+		if err := parentArray.validateGetRange(pos, numOfNodes); err != nil {
+			return nil, nil, err
+		}
 		t, j := parentArray.deleteLocal(pos, numOfNodes, ts)
 		return t, j, nil
 	}
